@@ -420,6 +420,8 @@ def _run_branch(case, ctx):
     rec = [x for x in _LOG if x["outcome"] == "ok"][-1]
     if len(rec["pressure"]) != len(ep) or not numpy.array_equal(rec["pressure"], ep) or not numpy.array_equal(rec["loading"], el):
         ctx.violation("fit/branch-data", "the data used for the fit are not exactly the rows of the requested branch", route=route, branch=which, n_used=len(rec["pressure"]), n_branch=len(ep))
+    # the error identity must also hold for data that arrive in descending order (desorption branch)
+    _check_logged(ctx, res[1], name, ep, el)
     if res[1].branch != which:
         ctx.violation("fit/branch-label", "the model isotherm does not record the requested branch", got=res[1].branch, expected=which)
     if which == "ads":
